@@ -265,4 +265,26 @@ pub mod facade {
       self.0.current_slice().is_none()
     }
   }
+
+  // ------------------------------------------------------------------
+  // SubscriptionTrie
+  // ------------------------------------------------------------------
+  pub struct TrieX(crate::socket::patterns::trie::SubscriptionTrie);
+  impl TrieX {
+    pub fn new() -> Self {
+      Self(crate::socket::patterns::trie::SubscriptionTrie::new())
+    }
+    pub fn subscribe(&self, t: &[u8]) {
+      self.0.subscribe(t)
+    }
+    pub fn unsubscribe(&self, t: &[u8]) -> bool {
+      self.0.unsubscribe(t)
+    }
+    pub fn matches(&self, m: &[u8]) -> bool {
+      self.0.matches(m)
+    }
+    pub fn get_all_topics(&self) -> Vec<Vec<u8>> {
+      self.0.get_all_topics()
+    }
+  }
 }
